@@ -1,0 +1,40 @@
+//go:build verif
+
+package peersync
+
+import (
+	"context"
+	"time"
+)
+
+// This file is compiled only with the "verif" build tag. It adds exported
+// wrappers around unexported functions so that an external monitor can drive
+// them synchronously. It contains no logic of its own.
+
+// VerifCleanupExpired runs one cleanup sweep exactly as the cleanup ticker
+// does (list connected peers, then CleanupExpiredExcept).
+func (ps *PeerSync) VerifCleanupExpired(ctx context.Context) error {
+	return ps.poller.cleanupExpired(ctx)
+}
+
+// VerifProcessMessage hands one inbound custom message to the message
+// handler on the caller's goroutine, exactly as handleMessages does for a
+// message read from the subscription channel.
+func (ps *PeerSync) VerifProcessMessage(ctx context.Context, msg CustomMessage) {
+	ps.handler.processMessage(ctx, msg)
+}
+
+// VerifCleanupTimeout returns the configured expiry timeout of the sweep.
+func (ps *PeerSync) VerifCleanupTimeout() time.Duration {
+	return ps.cleanupTimeout
+}
+
+// VerifRequestPollInterval returns the configured request-poll interval.
+func (ps *PeerSync) VerifRequestPollInterval() time.Duration {
+	return ps.requestPollInterval
+}
+
+// VerifProtocolVersion returns the protocol version this node advertises.
+func (ps *PeerSync) VerifProtocolVersion() uint64 {
+	return ps.version.Value()
+}
